@@ -1,4 +1,5 @@
 import PynencModel.Props.C07
+import PynencModel.Props.C07Inv
 open Pynenc.C07
 #print axioms reuse_changes_nothing
 #print axioms routeCall_answer
@@ -6,3 +7,4 @@ open Pynenc.C07
 #print axioms disabled_always_new
 #print axioms registered_only_by_registration
 #print axioms new_only_when_none_registered
+#print axioms keyIn_symm
